@@ -361,7 +361,8 @@ static void splineCase(vh::Rng& g, bool big, int forceMode = -1, int forceLayout
         double worst = 0;
         for (int i = 0; i < n; ++i) for (int cmp = 0; cmp < ncomp; ++cmp)
             worst = std::max(worst, std::fabs(val(cmp, 0, x[i]) - (vec3 ? y3[i][cmp] : y[i])));
-        vh::P("spline_through_points", key + ".interp", worst / ysc, 1e-9);
+        // strongly graded knots (mesh ratio up to 400:1) make the degree-7 fit ill-conditioned: measured max 9e-10 over 8000 cases
+        vh::P("spline_through_points", key + ".interp", worst / ysc, layout >= 2 ? 1e-7 : 1e-9);
     }
     // (2) "reports the true derivatives of its value", with no allowance taken from the implementation's own derivatives
     //     (round 2): on one knot interval the order-k output is sampled at degree+1 interior nodes; the
@@ -389,9 +390,10 @@ static void splineCase(vh::Rng& g, bool big, int forceMode = -1, int forceLayout
             }
         }
     }
-    vh::P("spline_deriv_chain", key + ".chain", worstChain, 1e-10);
-    vh::P("spline_deriv_of_value", key + ".fromvalue", worstFromValue, 1e-10);
-    vh::P("spline_piecewise_polynomial", key + ".poly", worstPoly, 1e-10);
+    // (measured maxima over 8000 cases: 2e-14 / 2e-14 / 4e-14 relative to cond; continuity 3e-14)
+    vh::P("spline_deriv_chain", key + ".chain", worstChain, 1e-12);
+    vh::P("spline_deriv_of_value", key + ".fromvalue", worstFromValue, 1e-12);
+    vh::P("spline_piecewise_polynomial", key + ".poly", worstPoly, 1e-12);
     // (3) continuity of value and derivatives up to degree-1 across interior knots: the one-sided limits are obtained by
     //     extrapolating the polynomial through degree+1 samples strictly inside the interval on either side (exact for a
     //     piecewise polynomial; no Lipschitz allowance)
@@ -406,7 +408,7 @@ static void splineCase(vh::Rng& g, bool big, int forceMode = -1, int forceLayout
                 worstJump = std::max(worstJump, std::max(std::fabs(el - er), std::max(std::fabs(at - el), std::fabs(at - er))) / sc);
             }
     }
-    vh::P("spline_continuity", key + ".cont", worstJump, 1e-10);
+    vh::P("spline_continuity", key + ".cont", worstJump, 1e-12);
     // (4) derivatives of order > degree vanish
     double hi = 0;
     for (int cmp = 0; cmp < ncomp; ++cmp) hi = std::max(hi, std::fabs(val(cmp, degree + 1, x[0] + 0.3 * (x[1] - x[0]))));
@@ -436,7 +438,7 @@ static void bicubicCase(vh::Rng& g) {
     };
     if (!smooth) {
         double worst = 0; for (int i = 0; i < nx; ++i) for (int j = 0; j < ny; ++j) worst = std::max(worst, std::fabs(F({}, x[i], y[j]) - f(i, j)));
-        vh::P("bicubic_through_points", key + ".interp", worst / fsc, 1e-11);
+        vh::P("bicubic_through_points", key + ".interp", worst / fsc, 1e-13);
     }
     // inside one patch the surface is a polynomial of degree <= 3 in each argument: every partial derivative up to total order 3
     // is compared with the exact derivative of the tensor-product polynomial through 4x4 *values* in the patch
@@ -459,7 +461,7 @@ static void bicubicCase(vh::Rng& g) {
         Array_<int> sc; for (int v : sorted) sc.push_back(v); Vector xy(2); xy[0] = X; xy[1] = Y;
         worstSym = std::max(worstSym, std::fabs(fn.calcDerivative(sc, xy) - got) / std::max(cond, 1e-300));
     }
-    vh::P("bicubic_deriv_of_value", key + ".deriv", worstD, 1e-10);
+    vh::P("bicubic_deriv_of_value", key + ".deriv", worstD, 1e-12);
     vh::P("bicubic_mixed_partials_symmetric", key + ".symmetric", worstSym, 1e-14);
     // the header promises continuity up to the second derivative: one-sided limits across an interior grid line x = x[i]
     if (nx > 2) {
@@ -472,7 +474,7 @@ static void bicubicCase(vh::Rng& g) {
             double c1, c2, el = polyDerivAt(nl, vl, x[i], 0, &c1), er = polyDerivAt(nr, vr, x[i], 0, &c2), at = F(L, x[i], Y);
             worst = std::max(worst, std::max(std::fabs(el - er), std::max(std::fabs(at - el), std::fabs(at - er))) / std::max(c1 + c2, 1e-300));
         }
-        vh::P("bicubic_C2_across_gridline", key + ".cont", worst, 1e-10);
+        vh::P("bicubic_C2_across_gridline", key + ".cont", worst, 1e-12);
     }
     vh::P("bicubic_order4_zero", key + ".high", std::fabs(F({0, 0, 1, 1}, X, Y)) + std::fabs(F({0, 0, 0, 0}, X, Y)), 0.0);   // documented: 4 or more entries give 0
 }
